@@ -2,10 +2,12 @@
    (Version, _version_extract_cmpop, version_compare, version_compare_many,
    Range, version_check_to_range, version_compare_condition_with_min).
    No proofs in this file. *)
-From MV Require Export Base.Strs.
+From MV Require Export Base.Strs Version.Unicode.
 Open Scope N_scope.
 
-(* universal.py:968  _VERSION_TOK_RE = (\d+)|([a-zA-Z]+) ; Version.__init__ *)
+(* universal.py:968  _VERSION_TOK_RE = (\d+)|([a-zA-Z]+) ; Version.__init__
+   \d is every Unicode decimal digit and int() takes each digit's decimal value
+   (Version/Unicode.v); [a-zA-Z] is ASCII only. *)
 Inductive comp := CNum (n : N) | CAlpha (s : str).
 Definition ver := list comp.
 
@@ -22,10 +24,10 @@ Fixpoint tok (s : str) (st : tstate) : list comp :=
   match s with
   | [] => tflush st
   | c :: r =>
-      if is_digit c then
+      if is_udigit c then
         match st with
-        | TNum a => tok r (TNum (a * 10 + digit_val c))
-        | _ => tflush st ++ tok r (TNum (digit_val c))
+        | TNum a => tok r (TNum (a * 10 + udigit_val c))
+        | _ => tflush st ++ tok r (TNum (udigit_val c))
         end
       else if is_alpha c then
         match st with
@@ -36,6 +38,22 @@ Fixpoint tok (s : str) (st : tstate) : list comp :=
   end.
 
 Definition tokenize (s : str) : ver := tok s TNone.
+
+(* int(m.group(1)) raises ValueError when the digit run has more than
+   sys.get_int_max_str_digits() = 4300 characters (CPython >= 3.11; every character
+   of the run counts, leading zeros included).  [run_over lim s cur]: some maximal
+   digit run of s (the first one continuing a run of [cur] digits) is longer than lim. *)
+Definition int_max_str_digits : nat := 4300.
+Fixpoint run_over (lim : nat) (s : str) (cur : nat) : bool :=
+  match s with
+  | [] => false
+  | c :: r =>
+      if is_udigit c then (if Nat.ltb lim (S cur) then true else run_over lim r (S cur))
+      else run_over lim r O
+  end.
+(* Version(s): None = ValueError, otherwise the component tuple _v *)
+Definition version_init (s : str) : option ver :=
+  if run_over int_max_str_digits s O then None else Some (tokenize s).
 
 (* Version.__cmp : universal.py:1025-1041, as a three-way comparison.
    "sort a non-digit sequence before a digit sequence": comparator(ours_is_int,
@@ -207,13 +225,15 @@ Definition check_step (start : range) (c : str) : range :=
 Definition check_to_range (checks : list str) (start : range) : range :=
   fold_left check_step checks start.
 
-(* version_compare_condition_with_min (condition given as a string) *)
-Definition condition_with_min (cond minimum : str) : bool :=
-  let r := check_to_range [cond] range_any in
+(* version_compare_condition_with_min : universal.py:1195-1205, on a Range ... *)
+Definition cwm_range (r : range) (minimum : str) : bool :=
   match rmin r with
   | None => rempty r
   | Some m => vop OpLe (tokenize minimum) m
   end.
+(* ... and with the condition given as a string *)
+Definition condition_with_min (cond minimum : str) : bool :=
+  cwm_range (check_to_range [cond] range_any) minimum.
 
 (* The constraint "x satisfies check c" used by the soundness theorems. *)
 Definition sat (x : ver) (c : str) : bool :=
